@@ -19,13 +19,20 @@ EXTENDS Naturals, Sequences, FiniteSets, TLC
 T(tok, nxt, fault) == <<tok, nxt, fault>>
 NoTok == ""        \* a transition that emits nothing (a missing token)
 
+\* Deep runs (Gen_Decoders_deepruns.cfg replaces DeepOn by TRUE): one token that stands for 100 000 / 200 000 repetitions of a piece of the
+\* grammar -- separators, escapes, whole pairs, directives.  The sentence stays inside the grammar; what it probes is a decoder whose
+\* recursion depth or stack use grows with the input (run on the unoptimised build of the harness, where no tail call is eliminated).
+DeepOn == FALSE
+Deep(set) == IF DeepOn THEN set ELSE {}
+
 \* ------------------------------------------------------------------ urlencoded bodies / query strings
 \*   pairs:  key "=" value ( "&" key "=" value )*      value = tokens incl. escapes, "," separates sequence elements
-UVals(rich) == {"1", "x", "true", ",", "%41"} \cup (IF rich THEN {"-", ".", "+", "%C3%A9", "e"} ELSE {})
+\* LONG: ninety escaped three-byte characters (270 bytes once decoded): values longer than any message or buffer a decoder may cut them to
+UVals(rich) == {"1", "x", "true", ",", "%41", "LONG"} \cup (IF rich THEN {"-", ".", "+", "%C3%A9", "e"} ELSE {})
 UrlTrans(p, rich) ==
   CASE p = "K" -> {T(k, "E", "") : k \in {"ka", "kz"}} \cup {T(NoTok, "E", "EmptyKey"), T("%FF", "E", "NonUtf8Escape")}
     [] p = "E" -> {T("=", "V", ""), T(NoTok, "V", "MissingEq"), T("&", "K", "MissingEq")}
-    [] p = "V" -> {T(v, "V", "") : v \in UVals(rich)} \cup {T("&", "K", "")}
+    [] p = "V" -> {T(v, "V", "") : v \in UVals(rich) \cup Deep({"DEEP:,", "DEEP:%41", "DEEP:&kz=1"})} \cup {T("&", "K", "")}
                   \cup {T("=", "V", "ExtraEq"), T("%", "V", "DanglingPercent"), T("%4", "V", "DanglingPercent"),
                         T("%G1", "V", "BadHex"), T("%FF", "V", "NonUtf8Escape"), T("%C3", "V", "NonUtf8Escape"),
                         T("HI", "V", "RawHighByte"), T("NUL", "V", "RawControl"), T(NoTok, "K", "MissingAmp")}
@@ -34,11 +41,11 @@ UrlAccept(p) == p = "V"
 
 \* ------------------------------------------------------------------ Cookie header
 \*   name "=" value ( "; " name "=" value )*
-CVals(rich) == {"1", "x", "true", "%41"} \cup (IF rich THEN {"-", ".", "%C3%A9", "DQ"} ELSE {})
+CVals(rich) == {"1", "x", "true", "%41", "LONG"} \cup (IF rich THEN {"-", ".", "%C3%A9", "DQ"} ELSE {})
 CookieTrans(p, rich) ==
   CASE p = "K" -> {T(k, "E", "") : k \in {"ka", "kz"}} \cup {T(NoTok, "E", "EmptyKey"), T("(", "E", "BadNameChar")}
     [] p = "E" -> {T("=", "V", ""), T(NoTok, "V", "MissingEq"), T("; ", "K", "MissingEq")}
-    [] p = "V" -> {T(v, "V", "") : v \in CVals(rich)} \cup {T("; ", "K", "")}
+    [] p = "V" -> {T(v, "V", "") : v \in CVals(rich) \cup Deep({"DEEP:; kz=1", "DEEP:%41"})} \cup {T("; ", "K", "")}
                   \cup {T("=", "V", "ExtraEq"), T("%", "V", "DanglingPercent"), T("%G1", "V", "BadHex"),
                         T("%FF", "V", "NonUtf8Escape"), T("%C3", "V", "NonUtf8Escape"), T(";", "K", "MissingSpace"),
                         T(" ", "V", "BadValueChar"), T("U8", "V", "RawNonAscii"), T("DQ", "V", "LoneQuote"),
@@ -81,13 +88,13 @@ SetCookieTrans(p, rich) ==
                         T("HUGE", "Y", "HugeMaxAge"), T("HI", "M", "NonDigitMaxAge")}
     [] p = "X" -> {T("/", "X", ""), T("; ", "D", ""), T("HI", "X", "RawHighByte"), T("=", "X", "ExtraEq")}
     [] p = "SS" -> {T("Lax", "Y", ""), T("x", "Y", "BadSameSite")}
-    [] p = "Y" -> {T("; ", "D", ""), T("x", "Y", "JunkAfterDirective")}
+    [] p = "Y" -> {T("; ", "D", ""), T("x", "Y", "JunkAfterDirective")} \cup {T(d, "Y", "") : d \in Deep({"DEEP:; Secure"})}
     [] OTHER -> {}
 SetCookieAccept(p) == p \in {"V", "M", "X", "Y"}
 
 \* ------------------------------------------------------------------ percent-decoding of paths and params
 PctTrans(p, rich) ==
-  CASE p = "P" -> {T(v, "P", "") : v \in {"x", "1", "%41"} \cup (IF rich THEN {"%C3%A9", "-", "%2F", "+"} ELSE {})}
+  CASE p = "P" -> {T(v, "P", "") : v \in {"x", "1", "%41"} \cup (IF rich THEN {"%C3%A9", "-", "%2F", "+"} ELSE {}) \cup Deep({"DEEP:%41"})}
                   \cup {T("%", "P", "DanglingPercent"), T("%4", "P", "DanglingPercent"), T("%G1", "P", "BadHex"),
                         T("%FF", "P", "NonUtf8Escape"), T("%C3", "P", "NonUtf8Escape"), T("%00", "P", "EscapedNul"),
                         T("HI", "P", "RawHighByte"), T("9x20", "P", "HugeNumber")}
